@@ -52,7 +52,7 @@ def run(rep, tier, only=None):
     shutil.copy('/verif/vf/pysym/h_c11_base.py', d)
     H = os.path.join(d, 'h_c11.py')
     names = gen(H, tier)
-    T = 300 if tier == 'quick' else 3000
+    T = 600 if tier == 'quick' else 3000
     nfree, ntok = (3, 4) if tier == 'quick' else (4, 5)
     rep.functions += ['Cython/Compiler/StringEncoding.py: escape_byte_string, _replace_specials (_build_specials_replacer, _to_escape_sequence), '
                       'split_string_literal, escape_char, BytesLiteral.as_c_string_literal; Cython/Compiler/Code.py: _split_characters']
